@@ -78,6 +78,64 @@ func fieldLoad(v ssa.Value, name string) bool {
 	return st != nil && st.Field(fa.Field).Name() == name
 }
 
+// probeCall: call is a call of a module function of one parameter that answers whether its argument's dynamic type
+// has a given type (`func implements[I any](v any) bool { _, ok := v.(I); return ok }`): the value probed at the
+// call site and the type asked for (the call's type argument where the helper asserts its own type parameter).
+func probeCall(e *Env, call *ssa.Call) (subject ssa.Value, asserted types.Type, ok bool) {
+	callee := e.C.StaticCallee(&call.Call)
+	if callee == nil || !flow.InRepo(callee) || len(call.Call.Args) != 1 {
+		return nil, nil, false
+	}
+	o := flow.Origin(callee)
+
+	if len(o.Params) != 1 || len(o.Blocks) == 0 {
+		return nil, nil, false
+	}
+	res := o.Signature.Results()
+	if res.Len() != 1 {
+		return nil, nil, false
+	}
+	if b, isB := res.At(0).Type().Underlying().(*types.Basic); !isB || b.Kind() != types.Bool {
+		return nil, nil, false
+	}
+	var ta *ssa.TypeAssert
+	for _, b := range o.Blocks {
+		for _, in := range b.Instrs {
+			switch x := in.(type) {
+			case *ssa.TypeAssert:
+				if ta != nil || !x.CommaOk || flow.Strip(x.X) != ssa.Value(o.Params[0]) {
+					return nil, nil, false
+				}
+				ta = x
+			case *ssa.Call, *ssa.Store, *ssa.Go, *ssa.Defer:
+				return nil, nil, false
+			case *ssa.Return:
+				ex, isEx := x.Results[0].(*ssa.Extract)
+				if !isEx || ta == nil || ex.Tuple != ssa.Value(ta) || ex.Index != 1 {
+					return nil, nil, false
+				}
+			}
+		}
+	}
+	if ta == nil {
+		return nil, nil, false
+	}
+	asserted = ta.AssertedType
+	if tp, isTP := asserted.(*types.TypeParam); isTP {
+		tps := o.TypeParams()
+		targs := callee.TypeArgs()
+		if raw := call.Call.StaticCallee(); raw != nil && len(raw.TypeArgs()) > 0 {
+			targs = raw.TypeArgs() // the instance as called (the resolved callee is its generic origin)
+		}
+		for i := 0; tps != nil && i < tps.Len() && i < len(targs); i++ {
+			if tps.At(i) == tp {
+				asserted = targs[i]
+			}
+		}
+	}
+	return call.Call.Args[0], asserted, true
+}
+
 // fieldLoadUnconverted: v is the field itself (boxed into an interface at most), not a conversion of it. The
 // expectation must enter the comparison in its own type: converting it (string → []byte) instead of the produced
 // data changes what testify calls equal (an empty expectation no longer equals a nil result).
@@ -463,6 +521,13 @@ func ruleC20Helper(e *Env, h helperSpec) {
 						}
 					}
 				case *ssa.Call:
+					// the same test made by a probing helper of the module
+					if _, at, isProbe := probeCall(e, x); isProbe {
+						if it, ok := at.Underlying().(*types.Interface); ok && ifaceHasMethod(it, h.name) {
+							ifaceOK = true
+							ifaceTest = x
+						}
+					}
 					// castToFunc also accepts the interface on *T: right for a target to unmarshal into, which is
 					// addressable; for the marshal direction "a type lacking the interface" is T itself lacking it (a
 					// value of T handed to encoding/json does not get a pointer method either)
@@ -1310,8 +1375,22 @@ func ruleC20Support(e *Env) {
 	if fn := e.Fn(rule, "test", "helperNew"); fn != nil && len(fn.Params) == 2 {
 		site := flow.FnName(fn)
 		helper, value := fn.Params[0], fn.Params[1]
+		// the branch without a TypeHelper extracted into a function of its own (`return newEmpty(value)`): the allocation
+		// and the zero value are then looked for there, under the conditions of the call site
+		scope, scopeValue := fn, ssa.Value(value)
+		var delegCall *ssa.Call
+		for _, r := range flow.Returns(fn) {
+			if len(r.Results) != 1 {
+				continue
+			}
+			if c, ok := r.Results[0].(*ssa.Call); ok && !c.Call.IsInvoke() && len(c.Call.Args) == 1 && derivesFrom(c.Call.Args[0], value) {
+				if g := e.C.StaticCallee(&c.Call); g != nil && flow.InRepo(g) && len(flow.Origin(g).Params) == 1 && len(flow.Origin(g).Blocks) > 0 {
+					scope, scopeValue, delegCall = flow.Origin(g), flow.Origin(g).Params[0], c
+				}
+			}
+		}
 		var newCall *ssa.Call
-		for _, b := range fn.Blocks {
+		for _, b := range scope.Blocks {
 			for _, in := range b.Instrs {
 				if c, ok := in.(*ssa.Call); ok && calleeName(&c.Call) == "reflect.New" {
 					newCall = c
@@ -1320,7 +1399,7 @@ func ruleC20Support(e *Env) {
 		}
 		valueOfValue := func(v ssa.Value) bool {
 			c, ok := v.(*ssa.Call)
-			return ok && calleeName(&c.Call) == "reflect.ValueOf" && len(c.Call.Args) == 1 && derivesFrom(c.Call.Args[0], value)
+			return ok && calleeName(&c.Call) == "reflect.ValueOf" && len(c.Call.Args) == 1 && derivesFrom(c.Call.Args[0], scopeValue)
 		}
 		typeOfValue := func(v ssa.Value) bool { // reflect.TypeOf(value) or reflect.ValueOf(value).Type()
 			c, ok := v.(*ssa.Call)
@@ -1329,7 +1408,7 @@ func ruleC20Support(e *Env) {
 			}
 			switch calleeName(&c.Call) {
 			case "reflect.TypeOf":
-				return derivesFrom(c.Call.Args[0], value)
+				return derivesFrom(c.Call.Args[0], scopeValue)
 			case "(reflect.Value).Type":
 				return valueOfValue(c.Call.Args[0])
 			}
@@ -1363,7 +1442,11 @@ func ruleC20Support(e *Env) {
 			}
 			extra := ""
 			sawKind, sawNil := false, false
-			for _, cc := range controlConds(newCall.Block()) {
+			conds := controlConds(newCall.Block())
+			if delegCall != nil {
+				conds = append(conds, controlConds(delegCall.Block())...)
+			}
+			for _, cc := range conds {
 				switch {
 				case kindIsPtr(cc.cond) && cc.pos:
 					sawKind = true
@@ -1381,7 +1464,7 @@ func ruleC20Support(e *Env) {
 			default:
 				// the allocation is what is returned
 				ret := false
-				for _, r := range flow.Returns(fn) {
+				for _, r := range flow.Returns(scope) {
 					if len(r.Results) == 1 {
 						if ta, ok := r.Results[0].(*ssa.TypeAssert); ok {
 							if ic, ok := ta.X.(*ssa.Call); ok && calleeName(&ic.Call) == "(reflect.Value).Interface" && len(ic.Call.Args) == 1 && ic.Call.Args[0] == ssa.Value(newCall) {
@@ -1414,7 +1497,11 @@ func ruleC20Support(e *Env) {
 		// every other return is the zero value of T: a target that starts out as the case's expected value would
 		// make an unmarshaler that does nothing pass the equality assertion
 		badRet, nZero := "", 0
-		for _, r := range flow.Returns(fn) {
+		allReturns := flow.Returns(fn)
+		if scope != fn {
+			allReturns = append(allReturns, flow.Returns(scope)...)
+		}
+		for _, r := range allReturns {
 			vals := flow.ReturnValues(r)
 			if len(vals) != 1 {
 				continue
@@ -1428,6 +1515,9 @@ func ruleC20Support(e *Env) {
 			case *ssa.Call:
 				if x.Call.IsInvoke() && x.Call.Method.Name() == "New" && x.Call.Value == ssa.Value(helper) {
 					continue
+				}
+				if x == delegCall {
+					continue // what that function returns is examined with it
 				}
 				badRet = "the result of " + x.Call.String()
 			case *ssa.Const:
@@ -1511,6 +1601,15 @@ func ruleC20Support(e *Env) {
 		var badAt ssa.Instruction
 		for _, b := range fn.Blocks {
 			for _, in := range b.Instrs {
+				if call, isCall := in.(*ssa.Call); isCall {
+					if subj, _, isProbe := probeCall(e, call); isProbe {
+						probes++
+						if !ofParam(subj) {
+							bad, badAt = subj.String(), in
+						}
+					}
+					continue
+				}
 				ta, ok := in.(*ssa.TypeAssert)
 				if !ok {
 					continue
